@@ -499,13 +499,24 @@ def r6_space(ctx):
                 "linear comparison" % text(loops[0].test))
     # the shortcut: first `if <linear cmp>: to_buffer = True` of the miss path
     short = None
+    cands = []
     for n in tb.own_nodes():
-        if isinstance(n, ast.If) and len(n.body) == 1 and isinstance(n.body[0], ast.Assign) \
-                and isinstance(n.body[0].value, ast.Constant) and n.body[0].value.value is True:
-            c = _lin_cmp(ctx, tb, n.test)
-            if c is not None:
-                short = (n, c)
-                break
+        if isinstance(n, ast.Assign) and isinstance(n.value, ast.Constant) and \
+                n.value.value is True:
+            chain = [(t, pol) for t, pol in guards(n, asserts=False)
+                     if _lin_cmp(ctx, tb, t, pol) is not None or
+                     not any(isinstance(x, ast.Call) and text(x.func) == "isinstance"
+                             for x in ast.walk(t))]
+            lin = [(t, pol) for t, pol in chain if _lin_cmp(ctx, tb, t, pol) is not None
+                   and {x.id for x in ast.walk(t) if isinstance(x, ast.Name)}
+                   & {"capacity"}]
+            if lin:
+                cands.append((len(chain), n, lin[0]))
+    if cands:
+        cands.sort(key=lambda c: c[0])
+        _, n_, (t_, pol_) = cands[0]
+        short = (n_, _lin_cmp(ctx, tb, t_, pol_))
+        short_txt = text(t_) if pol_ else "not (%s)" % text(t_)
     if short is None:
         ctx.bad("C17.R6", tb, tb.node, "the cache no longer admits a line "
                 "outright when there is room for it", text_="cache room shortcut")
@@ -514,12 +525,12 @@ def r6_space(ctx):
     room = (tuple(sorted((k, -v) for k, v in evict[0])), {"<=": "<", "<": "<="}[evict[1]])
     if c == room:
         ctx.ok("C17.R6", tb, n, "room test `%s` is the negation of the eviction "
-               "condition `%s`" % (text(n.test), text(loops[0].test)),
+               "condition `%s`" % (short_txt, text(loops[0].test)),
                text_="cache room shortcut")
     else:
         ctx.bad("C17.R6", tb, n, "the cache admits a line outright when `%s`, "
                 "but add_elem evicts while `%s`: a line admitted through the "
                 "shortcut can still force out a resident line (even one reused "
                 "sooner), so the fills exceed the optimal policy's and can grow "
-                "with capacity" % (text(n.test), text(loops[0].test)),
+                "with capacity" % (short_txt, text(loops[0].test)),
                 text_="cache room shortcut")
